@@ -647,6 +647,17 @@ func c18Extension(r *eng.Run) {
 		r.Probe("reset_after_accepted_offer")
 	}
 	e.Reset()
+	if r.T.Chance(sim.LCfg, 1, 3) {
+		// The application reconfigures the negotiator between two handshakes
+		// (the exported Parameters field): a new one with that configuration
+		// is the yardstick.
+		params = wsflate.Parameters{ServerNoContextTakeover: !params.ServerNoContextTakeover, ClientNoContextTakeover: r.T.Bool(sim.LCfg)}
+		if r.T.Bool(sim.LCfg) {
+			params.ServerMaxWindowBits = wsflate.WindowBits(8 + r.T.Int(sim.LCfg, 8))
+		}
+		e.Parameters = params
+		r.Probe("negotiator_reconfigured_after_reset")
+	}
 	fresh := &wsflate.Extension{Parameters: params}
 	r.Note("C18 Extension.Reset params=%+v first life: %v", params, t1)
 	r.Res.Nontrivial = true
